@@ -45,6 +45,7 @@ func checkC03(c *Ctx) {
 	c03Decode(c)
 	c03Arrays(c)
 	c03MarshalReceiver(c)
+	c03ResponseNeedsID(c)
 	c03Passthrough(c)
 	c03QueueAnswered(c)
 	// a response without the id of its request is not a well-formed answer to it (shared with C01)
